@@ -47,7 +47,8 @@ class Refuse(Exception):
     pass
 
 
-COQTY = {'Z': 'Z', 'Q': 'Q', 'B': 'bool', 'S': 'string', 'OQ': 'option Q', 'OZ': 'option Z', 'LS': 'list string'}
+COQTY = {'Z': 'Z', 'Q': 'Q', 'B': 'bool', 'S': 'string', 'OQ': 'option Q', 'OZ': 'option Z', 'LS': 'list string',
+         'LZ': 'list Z'}         # [loop ties C06] LZ: a 1-d integer array / list of ints, as a value
 
 
 COQ_RESERVED = {'end', 'match', 'with', 'in', 'let', 'fun', 'if', 'then', 'else', 'as', 'at', 'return', 'forall', 'exists',
@@ -168,6 +169,10 @@ class FnTranslator:
             if key in env:
                 return env[key]
             raise Refuse('%s: unknown attribute %s' % (self.rel, key))
+        if isinstance(n, ast.Subscript):
+            r = self.int_list_subscript(n, env)           # [loop ties C06] x[0], x[-1], x[1:], x[:-1], np.r_[...] on LZ
+            if r is not None:
+                return r
         if isinstance(n, ast.Subscript) and not isinstance(n.slice, (ast.Constant, ast.Tuple, ast.Slice)):
             # elementwise view of numpy code: v[mask] is v itself, read under the guard `mask`
             # (only legal where the result is consumed under the same mask; checked at the use site)
@@ -336,6 +341,56 @@ class FnTranslator:
             return self.call(n, env)
         raise Refuse('%s: unsupported expression %s' % (self.rel, type(n).__name__))
 
+    def int_list_subscript(self, n, env):
+        """[loop ties C06] integer lists (type LZ: a Python list of ints or a 1-d integer numpy array, read as a value).
+        Only these forms, each with exactly the meaning of the emitted Gallina:
+          np.r_[a, X, ...]  (a : Z, X : LZ)  concatenation                  -> [a] ++ X ++ ...
+          x[1:]                              all but the first (empty stays empty) -> tl x
+          x[:-1]                             all but the last  (empty stays empty) -> removelast x
+          x[0], x[-1]                        first / last element; IndexError on an empty x is an error path outside
+                                             the translation (recorded like a raise guard)      -> hd 0 x / last x 0
+        Returns None when `n` is not one of them (the caller goes on with the other readings of a subscript)."""
+        def neg1(e):
+            return isinstance(e, ast.UnaryOp) and isinstance(e.op, ast.USub) and isinstance(e.operand, ast.Constant) \
+                and e.operand.value == 1 and not isinstance(e.operand.value, bool)
+        def const(e, k):
+            return isinstance(e, ast.Constant) and e.value == k and not isinstance(e.value, bool) and isinstance(e.value, int)
+        if isinstance(n.value, ast.Attribute) and n.value.attr == 'r_' and isinstance(n.value.value, ast.Name) \
+                and n.value.value.id in ('np', 'numpy'):
+            items = n.slice.elts if isinstance(n.slice, ast.Tuple) else [n.slice]
+            parts = []
+            for it in items:
+                if isinstance(it, (ast.Slice, ast.Starred)):
+                    raise Refuse('%s: np.r_ with a slice item' % self.rel)
+                v = self.expr(it, env)
+                if v[1] == 'Z':
+                    parts.append('[%s]' % v[0])
+                elif v[1] == 'LZ':
+                    parts.append(v[0])
+                else:
+                    raise Refuse('%s: np.r_ item of type %s (only integers and integer lists)' % (self.rel, v[1]))
+            return ('(' + ' ++ '.join(parts) + ')%list', 'LZ')
+        try:
+            key = ast.unparse(n.value)
+        except Exception:
+            return None
+        if env.get(key, ('', ''))[1] != 'LZ':
+            return None
+        x = env[key][0]
+        sl = n.slice
+        if isinstance(sl, ast.Slice):
+            if sl.step is None and sl.upper is None and const(sl.lower, 1):
+                return ('(tl %s)' % x, 'LZ')
+            if sl.step is None and sl.lower is None and neg1(sl.upper):
+                return ('(removelast %s)' % x, 'LZ')
+            raise Refuse('%s: slice %s of an integer list (only [1:] and [:-1])' % (self.rel, ast.unparse(n)))
+        if const(sl, 0) or neg1(sl):
+            g = 'len(%s) == 0   (IndexError at %s)' % (key, ast.unparse(n))
+            if g not in self.guards:
+                self.guards.append(g)
+            return ('(hd 0 %s)' % x if const(sl, 0) else '(last %s 0)' % x, 'Z')
+        raise Refuse('%s: index %s of an integer list (only [0] and [-1])' % (self.rel, ast.unparse(n)))
+
     def to_text(self, tv, what):
         """str(v) / f'{v}' of a translated value"""
         if tv[1] == 'S':
@@ -502,6 +557,8 @@ class FnTranslator:
             raise Refuse('%s: unsupported method .%s' % (self.rel, f.attr))
         if isinstance(f, ast.Name):
             args = [self.expr(a, env) for a in n.args]
+            if f.id == 'len' and len(args) == 1 and args[0][1] in ('LZ', 'LS'):
+                return ('(Z.of_nat (length %s))' % args[0][0], 'Z')          # [loop ties C06] len of a list value
             if f.id == 'abs' and len(args) == 1:
                 if args[0][1] == 'Z':
                     return ('(Z.abs %s)' % args[0][0], 'Z')
@@ -901,7 +958,57 @@ class FnTranslator:
             if len(nms) == 1:
                 return '(let %s := %s in\n   %s)' % (nms[0], whole, body)
             return "(let '(%s) := %s in\n   %s)" % (', '.join(nms), whole, body)
+        if isinstance(s, ast.For) and getattr(self, 'yield_types', None) and 'yield__' in env:
+            return self.yield_only_for(s, rest, env, ret)          # [loop ties C06]
         raise Refuse('%s: unsupported statement %s' % (self.rel, type(s).__name__))
+
+    def yield_only_for(self, s, rest, env, ret):
+        """[loop ties C06] an inner `for a, b in zip(X, Y):` / `for a in X:` over integer lists (LZ) whose body does nothing
+        but yield (ifs of yields, log lines): the values it yields, iteration after iteration, are
+        flat_map (fun '(a, b) => <yields of one pass>) (combine X Y)   (zip stops at the shorter list, as combine does).
+        The body may assign nothing else and may not leave the loop; the loop variables are unbound afterwards (Python
+        keeps the last pass's values: a later read is refused rather than guessed)."""
+        if s.orelse:
+            raise Refuse('%s: inner loop with an else clause' % self.rel)
+        tg = s.target.elts if isinstance(s.target, ast.Tuple) else [s.target]
+        if not all(isinstance(t, ast.Name) for t in tg) or len({t.id for t in tg}) != len(tg):
+            raise Refuse('%s: inner loop target %s' % (self.rel, ast.unparse(s.target)))
+        it = s.iter
+        if isinstance(it, ast.Call) and isinstance(it.func, ast.Name) and it.func.id == 'zip' and not it.keywords \
+                and len(it.args) == len(tg) == 2 and isinstance(s.target, ast.Tuple):
+            lists = [self.expr(a, env) for a in it.args]
+        elif len(tg) == 1 and not isinstance(s.target, ast.Tuple):
+            lists = [self.expr(it, env)]
+        else:
+            raise Refuse('%s: inner loop over %s (only zip of two integer lists / one integer list)' % (self.rel, ast.unparse(it)))
+        if any(l[1] != 'LZ' for l in lists):
+            raise Refuse('%s: inner loop over values of types %s' % (self.rel, [l[1] for l in lists]))
+        body = self.desugar(list(s.body))
+        for x in ast.walk(ast.Module(body=body, type_ignores=[])):
+            if isinstance(x, (ast.Break, ast.Continue, ast.Return, ast.For, ast.While)):
+                raise Refuse('%s: inner loop body with %s' % (self.rel, type(x).__name__))
+        envi = dict(env)
+        names = [self.new(t.id) for t in tg]
+        for t, nm in zip(tg, names):
+            envi[t.id] = (nm, 'Z')
+        envi['yield__'] = ('(@nil (%s))' % ' * '.join(COQTY[t] for t in self.yield_types), 'Y')
+        keys = self.assigned_keys(body, envi)
+        if keys is None or any(k != 'yield__' for k in keys):
+            raise Refuse('%s: inner loop body that does more than yield (assigns %s)' % (self.rel, keys))
+        lets, finals = self.branch_values(body, envi, ['yield__'])
+        one = finals[0][0]
+        for nm, term in reversed(lets):
+            one = '(let %s := %s in %s)' % (nm, term, one)
+        if len(lists) == 2:
+            fm = "(flat_map (fun '(%s, %s) => %s) (combine %s %s))" % (names[0], names[1], one, lists[0][0], lists[1][0])
+        else:
+            fm = '(flat_map (fun %s => %s) %s)' % (names[0], one, lists[0][0])
+        nm = self.new('yield')
+        env2 = dict(env)
+        for t in tg:
+            env2.pop(t.id, None)
+        env2['yield__'] = (nm, 'Y')
+        return '(let %s := (%s ++ %s) in\n   %s)' % (nm, env['yield__'][0], fm, self.block(rest, env2, ret))
 
     def assigned_keys(self, stmts, env):
         """keys assigned by a block made only of assignments and nested ifs of such blocks (None otherwise)"""
@@ -1129,6 +1236,8 @@ class FnTranslator:
             stmts = self.find_fragment(stmts, frag['first'], frag['last'])
             if stmts is None:
                 raise Refuse('%s.%s: fragment %r .. %r not found' % (self.rel, sp['name'], frag['first'], frag['last']))
+            if self.yield_types:
+                stmts = self.desugar(stmts)       # [loop ties C06] a fragment inside a for body: its `yield`s are desugared here
         self.loop_carried = None
         self.loop_has_break = False
         loop = sp.get('loop')
